@@ -325,10 +325,28 @@ static std::string run(int n, const std::string& opsw)
             }
             else if (f[0] == "ae") { *sl[i] = O(); }
             else if (f[0] == "dc") { auto nw = std::make_unique<O>(); sl[i] = std::move(nw); }
-            else if (f[0] == "rd")
+            else if (f[0] == "rd" || f[0] == "rc" || f[0] == "rm" || f[0] == "rp" || f[0] == "rt")
             {
-                try { const T& x = **sl[i]; r = "v:" + hex(val(x)); }
+                // the read accessors (operator* and explicit operator bool; the class has no others) on the object as
+                //   rd: non-const lvalue   rc: const lvalue   rm: std::move(named)   rp: prvalue returned by a function
+                //   rt: member of a temporary.
+                // The value is only LOOKED AT through the returned reference (no T is constructed from it), inside the full
+                // expression, so a legitimate "move out of temporaries" overload would change nothing here.
+                struct Holder { O o; };
+                auto by_value = [](const O& o) -> O { return o; };
+                O& named = *sl[i];
+                const O& cnamed = *sl[i];
+                bool b = false;
+                try
+                {
+                    if (f[0] == "rd") { b = static_cast<bool>(named); r = "v:" + hex(val(*named)); }
+                    else if (f[0] == "rc") { b = static_cast<bool>(cnamed); r = "v:" + hex(val(*cnamed)); }
+                    else if (f[0] == "rm") { b = static_cast<bool>(std::move(named)); r = "v:" + hex(val(*std::move(named))); }
+                    else if (f[0] == "rp") { b = static_cast<bool>(by_value(cnamed)); r = "v:" + hex(val(*by_value(cnamed))); }
+                    else { b = static_cast<bool>(Holder{ O(cnamed) }.o); r = "v:" + hex(val(*Holder{ O(cnamed) }.o)); }
+                }
                 catch (const nitro::except::exception&) { r = "raise"; }
+                if (b != (r != "raise")) r += "!bool";
             }
             else return "BADCASE";
             out += r + "|" + state_obs<T>(sl) + ";";
